@@ -3,6 +3,8 @@ C11 — Paragraphs are split, transformed independently and rejoined losslessly.
 -/
 import RosedVerif.Model.InstAFacts
 import RosedVerif.Model.ParaLemmas
+import RosedVerif.Model.BridgeEditorOps
+import RosedVerif.Model.BridgeEditorParas
 namespace RosedVerif.Props
 open RosedVerif
 
@@ -51,5 +53,35 @@ theorem C11_homomorphism (ed : Editor Int) (f : List Int → R (List Int)) (o : 
 /-! non-vacuity: the ambiguous sequence paraSep·lineSep with the default separators -/
 example : paragraphsOf [0x61, 0xa, 0xa, 0xa, 0x62] { lineSep := [0xa], paraSep := [0xa, 0xa] } =
     [[0x61, 0xa], [0x62]] := by decide
+
+open RosedVerif.BridgeOps RosedVerif.BridgeEditorOps RosedVerif.BridgeEditorParas RosedVerif.OpsStructure
+
+/-- **paragraph mode on code points**: WrapOpts with PreserveParagraphs on a text over a stable vocabulary (with space, hyphen and the placeholder `A`), separators that cannot be found across cluster boundaries (`GoodPara`): the code-point run of the model — paragraph splitting with its look-ahead, affix placeholders, per-paragraph wrap, re-join — is the flattening of the cluster run, for any editor -/
+theorem C11_wrapOpts_code_points_para {V : List (List Int)} (hV : VocabStable V = true)
+    (hsp : [0x20] ∈ V)
+    (hhy : [0x2D] ∈ V)
+    (hA : [0x41] ∈ V)
+    (hspTail : ∀ t ∈ V, (0x20 : Int) ∉ t.tail)
+    (ed : Editor (List Int))
+    (ht : ∀ t ∈ ed.text, t ∈ V)
+    (width : Int)
+    (o : Options (List Int))
+    (hpp : o.preservePara = true)
+    (hG : GoodPara V (o.withDefaults cxB).lineSep (o.withDefaults cxB).paraSep) :
+    Editor.wrapOpts cxA ed.flat width o.flat = (Editor.wrapOpts cxB ed width o).map Editor.flat :=
+  wrapOpts_bridge_para hV hsp hhy hA hspTail ed ht width o hpp hG
+
+/-- the same for IndentOpts in paragraph mode -/
+theorem C11_indentOpts_code_points_para {V : List (List Int)} (hV : VocabStable V = true)
+    (ed : Editor (List Int))
+    (ht : ∀ t ∈ ed.text, t ∈ V)
+    (level : Int)
+    (o : Options (List Int))
+    (hpp : o.preservePara = true)
+    (hG : GoodPara V (o.withDefaults cxB).lineSep (o.withDefaults cxB).paraSep)
+    (hi : ∀ t ∈ o.indentStr, t ≠ []) :
+    Editor.indentOpts cxA ed.flat level o.flat =
+      (Editor.indentOpts cxB ed level o).map Editor.flat :=
+  indentOpts_bridge_para hV ed ht level o hpp hG hi
 
 end RosedVerif.Props
